@@ -18,15 +18,16 @@ POOLS = {
     "i": [0, 1, -1, -2, 2, 7, 2**61 - 1, 2**31, -2**31, 2**53, 2**53 + 1, 2**53 + 2, -(2**53 + 1), 2**63 - 1, 2**63 - 2, -2**63 + 1, -2**63,
           127, 128, -128, -129, 255, 256, 32767, 32768, -32768, 65535, 65536, 2**31 - 1, 2**32],     # width boundaries
     "b": [True, False],
-    "s": ["", "a", "b", "ab", "B", "é", "日本", "😀", " a", P49 + "a", P49 + "b", P49, "q" * 70, "a\x00", "a\x00b"],
-    "u": ["", "a", "b", "ab", "B", "é", "日本", " a"],
+    "s": ["", "a", "b", "ab", "B", "é", "日本", "😀", " a", P49 + "a", P49 + "b", P49, "q" * 70, "a\x00", "a\x00b",
+          "None", "nan", "NaT", "Ł", "İ"],      # spellings of other dtypes' missing values; code points >= U+0100
+    "u": ["", "a", "b", "ab", "B", "é", "日本", " a", "None", "nan", "Ł"],
     "d": [None, "1970-01-01", "1969-12-31", "2020-12-31", "2021-01-03", "2024-02-29", "0001-01-01", "9999-12-31"],
     "t": [None, "1970-01-01T00:00:00.000001", "1969-12-31T23:59:59", "2020-12-31T12:00:00",
           "2024-02-29T00:00:00", "0001-01-01T00:00:00", "9999-12-31T23:59:59.999999"],
     "tm": [None, "1970-01-01T00:00:00.001", "1969-12-31T23:59:59", "2020-12-31T12:00:00"],
     "ts": [None, "1970-01-01T00:00:01", "1969-12-31T23:59:59", "2020-12-31T12:00:00"],
     "td": [None, 0, 1, -5, 86400],
-    "o": [None, "a", "b", "ab", "B"],
+    "o": [None, "a", "b", "ab", "B", "None", "nan"],
     "oi": [None, 1, 2, 3],
     "ob": [None, True, False],
     "y": ["a", "b", "ab", "B"],
@@ -74,8 +75,19 @@ NA_VALUE = {"f": NAN, "f32": NAN, "s": "", "u": "", "d": None, "t": None, "tm": 
             "o": None, "oi": None, "ob": None}
 
 
+# Distinct values whose hashes coincide in CPython (hash(-1) == hash(-2), numbers are hashed modulo 2**61 - 1, inf hashes
+# to 314159), next to a missing value: whatever remembers only hashes, or packs keys into one number, merges them.
+TWINS = {
+    "f": [NAN, -1.0, -2.0, 0.5, 2.0**60, INF, 314159.0], "f32": [NAN, -1.0, -2.0], "i": [-1, -2, 0, 2**61 - 1, 2**61],
+    "i32": [-1, -2, 0], "i8": [-1, -2, 0], "d": [None, "1969-12-31", "1969-12-30"], "td": [None, -1, -2],
+    "t": [None, "1969-12-31T23:59:59.999999", "1969-12-31T23:59:59.999998"], "oi": [None, -1, -2],
+}
+
+
 def value(kind, mode="pool"):
-    """One cell value. mode: tight (2-3 values), pool (pool + 25 % tail), wide (50 % tail)."""
+    """One cell value. mode: tight (2-3 values), twins (hash-colliding values), pool (pool + 25 % tail), wide (50 % tail)."""
+    if mode == "twins":
+        return st.sampled_from(TWINS.get(kind, TIGHT[kind]))
     if mode == "tight":
         return st.sampled_from(TIGHT[kind])
     pool = st.sampled_from(POOLS[kind])
@@ -88,7 +100,7 @@ def value(kind, mode="pool"):
 def values(draw, kind, n, mode=None, na=None):
     """n cell values of one kind; na in {None(draw), 'none', 'some', 'all'}."""
     if mode is None:
-        mode = draw(st.sampled_from(["tight", "tight", "pool", "pool", "wide"]))
+        mode = draw(st.sampled_from(["tight", "tight", "tight", "pool", "pool", "pool", "wide", "wide", "twins"]))
     if na is None:
         na = draw(st.sampled_from(["asis", "asis", "asis", "none", "all"]))
     if kind not in NA_VALUE:
@@ -162,3 +174,16 @@ def big_values(draw, kind, n, na="none"):
 
 
 BIG_SIZES = [65, 129, 257, 300]
+HUGE_SIZES = [513, 1031, 2049, 5003]           # beyond any plausible "fast path above N elements" threshold
+
+
+@st.composite
+def big_frame_plan(draw, kinds=ALL_FRAME_KINDS, max_cols=3, min_cols=1, prefix="c", sizes=None, na="asis"):
+    """A frame of 65 .. 5003 rows whose columns are laid out from a few base values (big_values): a dozen draws."""
+    n = draw(st.sampled_from(sizes or (BIG_SIZES + HUGE_SIZES)))
+    k = draw(st.integers(min_cols, max_cols))
+    cols = []
+    for j in range(k):
+        kind = draw(st.sampled_from(kinds))
+        cols.append({"name": f"{prefix}{j}", "kind": kind, "vals": draw(big_values(kind, n, na=na))})
+    return {"n": n, "cols": cols}
